@@ -3,7 +3,8 @@
       consensus/wal.go      WALEncoder.Encode, WALDecoder.Decode, BaseWAL.Write/WriteSync/SearchForEndHeight
       consensus/state.go    repairWalFile
       lib/autofile/group.go Group.Write (bufio.Writer), FlushAndSync, checkHeadSizeLimit, RotateFile,
-                            GroupReader.Read (across files)
+                            checkTotalSizeLimit, readGroupInfo (OpenGroup), GroupReader.Read (across files)
+      consensus/state.go    the repair steps of ConsensusState.OnStart (backup by copy, repair in place)
     No proofs in this file.
 
     Bytes are [N] below 256.  Payload (de)serialisation ([WALToProto]+[proto.Marshal] and
@@ -175,6 +176,30 @@ Section WAL.
     else if (g_limit g <=? Z.of_nat (length (g_head g)))%Z then group_rotate g
     else g.
 
+  (** checkTotalSizeLimit (run by the group's ticker after checkHeadSizeLimit): readGroupInfo sums the
+      sizes of the files on disk; while that total is not below the limit the oldest file is removed,
+      at most maxFilesToRemove per tick and never the head ([index == gInfo.MaxIndex]: "just do
+      nothing").  The buffered bytes are not on disk and do not count.  A limit of 0 disables it. *)
+  Definition total_size (g : group) : Z := Z.of_nat (length (concat (g_files g)) + length (g_head g)).
+
+  Fixpoint prune_loop (i : nat) (fs : list bytes) (total limit : Z) : nat * list bytes :=
+    match i with
+    | O => (O, fs)
+    | S i' =>
+      if (total <? limit)%Z then (O, fs)
+      else match fs with
+           | [] => (O, [])
+           | f :: r => let '(k, fs') := prune_loop i' r (total - Z.of_nat (length f))%Z limit in (S k, fs')
+           end
+    end.
+
+  Definition pruned_count (tl : Z) (g : group) : nat :=
+    if (tl =? 0)%Z then O else fst (prune_loop (N.to_nat max_files_to_remove) (g_files g) (total_size g) tl).
+
+  Definition check_total_size_limit (tl : Z) (g : group) : group :=
+    let k := pruned_count tl g in
+    mkGroup (g_min g + k) (skipn k (g_files g)) (g_head g) (g_buf g) (g_limit g).
+
   Inductive wres := WOk | WTooBig.
 
   (** BaseWAL.Write / WriteSync given the marshalled payload *)
@@ -190,17 +215,26 @@ Section WAL.
     | Some fr => (group_flush (group_write g fr), WOk)
     end.
 
-  (** Stop (FlushAndSync, close) followed by NewWAL on the same directory and Start: OnStart writes
-      [EndHeightMessage{0}] (payload [p0]) with WriteSync whenever the head file is empty — at the
-      very first start, and also after a rotation that left the head empty. *)
+  (** Stop (FlushAndSync, close) followed by NewWAL on the same directory and Start.  OpenGroup takes
+      the indices from the directory (readGroupInfo): with no rotated file left the head is index 0
+      again ([reopen]).  OnStart writes [EndHeightMessage{0}] (payload [p0]) with WriteSync whenever
+      the head file is empty — at the very first start, and also after a rotation that left the head
+      empty. *)
+  Definition reopen (g : group) : group :=
+    match g_files g with
+    | [] => mkGroup O [] (g_head g) (g_buf g) (g_limit g)
+    | _ => g
+    end.
+
   Definition wal_start (g : group) (p0 : bytes) : group * wres :=
-    let g1 := group_flush g in
+    let g1 := reopen (group_flush g) in
     match g_head g1 with
     | [] => wal_write_sync g1 p0
     | _ => (g1, WOk)
     end.
 
-  Inductive wal_op := WWrite (p : bytes) | WWriteSync (p : bytes) | WTick | WFlush | WRotate | WStart (p0 : bytes).
+  Inductive wal_op := WWrite (p : bytes) | WWriteSync (p : bytes) | WTick | WFlush | WRotate | WStart (p0 : bytes)
+                    | WPrune (total_limit : Z).
 
   Definition wal_step (g : group) (o : wal_op) : group * wres :=
     match o with
@@ -210,6 +244,7 @@ Section WAL.
     | WFlush => (group_flush g, WOk)
     | WRotate => (group_rotate g, WOk)
     | WStart p0 => wal_start g p0
+    | WPrune tl => (check_total_size_limit tl g, WOk)
     end.
 
   Definition wal_run (g : group) (ops : list wal_op) : group :=
@@ -282,6 +317,25 @@ Section WAL.
     end.
 
   Definition repair (bs : bytes) : bytes * bool := repair_loop (S (length bs)) bs [].
+
+  (** [os.Create(dst)] in repairWalFile: O_TRUNC — whatever the destination held is gone; the file is
+      then exactly what the encoder writes.  ([file_overwrite] is what a destination opened without
+      O_TRUNC would hold instead; it is here only so that the difference can be stated.) *)
+  Definition os_create (old : bytes) : bytes := [].
+  Definition file_overwrite (old w : bytes) : bytes := w ++ skipn (length w) old.
+
+  (** The repair steps of ConsensusState.OnStart on the WAL head file [wal]: the corrupted file is backed
+      up by COPYING it to wal.CORRUPTED (it stays in place), then repairWalFile(wal.CORRUPTED, wal)
+      rewrites it.  Result: (backup, wal file afterwards, no Encode error). *)
+  Definition repair_onstart (wal : bytes) : bytes * bytes * bool :=
+    let backup := wal in
+    let '(out, ok) := repair backup in
+    (backup, os_create wal ++ out, ok).
+
+  (** the same inside a group: only the head file is repaired, rotated files are left as they are *)
+  Definition repair_head (g : group) : group * bool :=
+    let '(_, w, ok) := repair_onstart (g_head g) in
+    (mkGroup (g_min g) (g_files g) w [] (g_limit g), ok).
 
 End WAL.
 
